@@ -16,6 +16,8 @@ pub struct TyEntry {
     pub meta: fn(&Meta) -> String,
     pub nested: fn(&NestedMeta) -> String,
     pub none: fn() -> String,
+    /// the individual trait methods called directly: (kind, input) -> answer
+    pub direct: fn(&Direct) -> String,
     /// answer of the *unwrapped* inner type on the same item, when this entry is a wrapper
     pub depth: usize,
     /// external grammar parsers whose verdict on string literals the model needs (oracle rows)
@@ -35,6 +37,27 @@ fn run_meta<T: FromMeta + Canon>(m: &Meta) -> String {
 fn run_nested<T: FromMeta + Canon>(m: &NestedMeta) -> String {
     answer(catch_unwind(AssertUnwindSafe(|| T::from_nested_meta(m))))
 }
+/// a direct call of one trait method, bypassing `from_meta`'s routing
+pub enum Direct {
+    Word,
+    List(Vec<NestedMeta>),
+    Str(String),
+    Bool(bool),
+    Char(char),
+    Value(syn::Lit),
+    Expr(syn::Expr),
+}
+fn run_direct<T: FromMeta + Canon>(d: &Direct) -> String {
+    answer(catch_unwind(AssertUnwindSafe(|| match d {
+        Direct::Word => T::from_word(),
+        Direct::List(items) => T::from_list(items),
+        Direct::Str(s) => T::from_string(s),
+        Direct::Bool(b) => T::from_bool(*b),
+        Direct::Char(c) => T::from_char(*c),
+        Direct::Value(l) => T::from_value(l),
+        Direct::Expr(e) => T::from_expr(e),
+    })))
+}
 fn run_none<T: FromMeta + Canon>() -> String {
     match catch_unwind(|| T::from_none()) {
         Ok(Some(v)) => tagged("some", vec![v.canon()]).render(),
@@ -44,7 +67,7 @@ fn run_none<T: FromMeta + Canon>() -> String {
 }
 
 pub fn mk<T: FromMeta + Canon>(ty: Sx, depth: usize) -> TyEntry {
-    TyEntry { ty, meta: run_meta::<T>, nested: run_nested::<T>, none: run_none::<T>, depth, kinds: vec![] }
+    TyEntry { ty, meta: run_meta::<T>, nested: run_nested::<T>, none: run_none::<T>, direct: run_direct::<T>, depth, kinds: vec![] }
 }
 
 pub fn int_ty(name: &str) -> Sx {
